@@ -104,7 +104,7 @@ structure SInv (m : MState) : Prop where
   gone_stopped : ∀ x, (m.act x).gone = true ↔ m.t.status x = .stopped
   pend_closed : ∀ x, Pending m x → m.t.kids x = none
   pend_lt : ∀ x, Pending m x → x < m.t.n
-  no_stopping : ∀ x, m.t.status x ≠ .stopping
+  ps : ∀ x, m.t.status x = .stopping → (m.act x).inPs = true
 
 theorem exit_n (fixed : Bool) (s : State) (a : Nat) : (exit fixed s a).n = s.n := by
   show (detachSelf (terminate fixed (setStatus s a .stopping) a) a).n = s.n
@@ -147,7 +147,8 @@ theorem settle1_spec (fixed : Bool) {m : MState} (h : SInv m) {x : Nat} (hx : Pe
     (∀ z, Pending (settle1 fixed m x) z ↔ Pending m z ∧ z ≠ x) ∧
     (∀ z, (settle1 fixed m x).t.status z = if z = x then .stopped else m.t.status z) ∧
     (settle1 fixed m x).t.killed = m.t.killed ∧ (settle1 fixed m x).t.n = m.t.n ∧
-    (settle1 fixed m x).t = step fixed m.t (.exit x) := by
+    (settle1 fixed m x).t = step fixed m.t (.exit x) ∧
+    (∀ z, ((settle1 fixed m x).act z).inPs = (m.act z).inPs) := by
   have hkx := h.pend_closed x hx
   have hstx : m.t.status x ≠ .stopped := fun e => by
     have := (h.gone_stopped x).mpr e
@@ -165,7 +166,11 @@ theorem settle1_spec (fixed : Bool) {m : MState} (h : SInv m) {x : Nat} (hx : Pe
     by_cases e : z = x
     · subst e; simp
     · simp [e]
-  refine ⟨?_, hpend, hstatus, hkilled, exit_n fixed m.t x, rfl⟩
+  have hinps : ∀ z, ((settle1 fixed m x).act z).inPs = (m.act z).inPs := by
+    intro z; simp only [settle1, upd_apply]; split
+    · next e => subst e; rfl
+    · rfl
+  refine ⟨?_, hpend, hstatus, hkilled, exit_n fixed m.t x, rfl, hinps⟩
   exact {
     inv := h.inv.exit fixed x
     gone_stopped := by
@@ -186,10 +191,10 @@ theorem settle1_spec (fixed : Bool) {m : MState} (h : SInv m) {x : Nat} (hx : Pe
       have := h.pend_lt z ((hpend z).mp hz).1
       show z < (exit fixed m.t x).n
       rw [exit_n]; exact this
-    no_stopping := by
-      intro z; rw [hstatus z]; split
-      · simp
-      · exact h.no_stopping z }
+    ps := by
+      intro z; rw [hstatus z, hinps z]; split
+      · intro e; cases e
+      · exact h.ps z }
 
 /-- removing one element that satisfies the predicate lowers the count by one -/
 theorem countP_remove {l : List Nat} (hnd : l.Nodup) {p p' : Nat → Bool} {x : Nat} (hx : x ∈ l) (hpx : p x = true)
@@ -221,7 +226,8 @@ theorem settle_spec (fixed : Bool) : ∀ (f : Nat) (m : MState), SInv m → pend
     (∀ z, (settle fixed f m).t.status z = if pendB m z then .stopped else m.t.status z) ∧
     (∀ z, ((settle fixed f m).act z).gone = true ↔ (m.act z).gone = true ∨ Pending m z) ∧
     (settle fixed f m).t.killed = m.t.killed ∧
-    (∃ l : List Nat, (settle fixed f m).t = steps fixed m.t (l.map Op.exit)) := by
+    (∃ l : List Nat, (settle fixed f m).t = steps fixed m.t (l.map Op.exit)) ∧
+    (∀ z, ((settle fixed f m).act z).inPs = (m.act z).inPs) := by
   intro f
   induction f with
   | zero =>
@@ -235,7 +241,7 @@ theorem settle_spec (fixed : Bool) : ∀ (f : Nat) (m : MState), SInv m → pend
       cases hb : pendB m z with
       | false => rfl
       | true => exact absurd (pendB_iff.mp hb) (hnone z)
-    refine ⟨h, hnone, fun z => by simp [settle, hb z], fun z => by simp [settle, hnone z], rfl, [], rfl⟩
+    refine ⟨h, hnone, fun z => by simp [settle, hb z], fun z => by simp [settle, hnone z], rfl, ⟨[], rfl⟩, fun _ => rfl⟩
   | succ f ih =>
     intro m h hc
     simp only [settle]
@@ -250,12 +256,12 @@ theorem settle_spec (fixed : Bool) : ∀ (f : Nat) (m : MState), SInv m → pend
         cases hb : pendB m z with
         | false => rfl
         | true => exact absurd (pendB_iff.mp hb) (hnone z)
-      refine ⟨h, hnone, fun z => by simp [hb z], fun z => by simp [hnone z], by trivial, [], by trivial⟩
+      refine ⟨h, hnone, fun z => by simp [hb z], fun z => by simp [hnone z], by trivial, ⟨[], by trivial⟩, fun _ => by trivial⟩
     | some x =>
       simp only
       have hxm : x ∈ List.range m.t.n := List.mem_of_find?_eq_some hf
       have hxp : Pending m x := pendB_iff.mp (List.find?_some hf)
-      obtain ⟨h1, hpend, hstatus, hkilled, hn, hstep⟩ := settle1_spec fixed h hxp
+      obtain ⟨h1, hpend, hstatus, hkilled, hn, hstep, hinps1⟩ := settle1_spec fixed h hxp
       have hcount : pendCount (settle1 fixed m x) + 1 = pendCount m := by
         unfold pendCount
         rw [hn]
@@ -277,8 +283,8 @@ theorem settle_spec (fixed : Bool) : ∀ (f : Nat) (m : MState), SInv m → pend
                 | false => rfl
                 | true => exact absurd (pendB_iff.mp hb') hz1
               simp [this]
-      obtain ⟨A, B, C, D, E, l, F⟩ := ih (settle1 fixed m x) h1 (by omega)
-      refine ⟨A, B, ?_, ?_, E.trans hkilled, x :: l, ?_⟩
+      obtain ⟨A, B, C, D, E, ⟨l, F⟩, G⟩ := ih (settle1 fixed m x) h1 (by omega)
+      refine ⟨A, B, ?_, ?_, E.trans hkilled, ⟨x :: l, ?_⟩, fun z => (G z).trans (hinps1 z)⟩
       · intro z
         show (settle fixed f (settle1 fixed m x)).t.status z = _
         rw [C z, hstatus z]
@@ -318,14 +324,14 @@ structure MI (m : MState) : Prop where
   inv : Inv m.t
   gone_stopped : ∀ x, (m.act x).gone = true ↔ m.t.status x = .stopped
   killed_gone : ∀ x, m.t.killed x = true → (m.act x).gone = true
-  no_stopping : ∀ x, m.t.status x ≠ .stopping
+  ps : ∀ x, m.t.status x = .stopping → (m.act x).inPs = true
   fresh : ∀ x, m.t.n ≤ x → m.t.status x = .unstarted
 
 theorem MI.init : MI {} :=
   { inv := Inv.init
     gone_stopped := by intro x; simp
     killed_gone := by intro x h; cases h
-    no_stopping := by intro x h; cases h
+    ps := by intro x h; cases h
     fresh := fun _ _ => rfl }
 
 /-- a proper descendant is linked, hence not stopped -/
@@ -342,23 +348,35 @@ theorem desc_proper_live {s : State} (h : Inv s) {a z : Nat} (hd : Desc s a z) (
 theorem killCond_true_of {st : Status} (h1 : st ≠ .stopped) (h2 : st ≠ .stopping) : killCond true st = true := by
   cases st <;> first | rfl | exact absurd rfl h1 | exact absurd rfl h2
 
-/-- `exitM a` at a quiescent point (kill condition `< Stopping`): exactly the actors linked beneath `a`
-(and `a`) end up Stopped; the result is again a quiescent state -/
+theorem killCond_true_ne {st : Status} (h : killCond true st = true) : st ≠ .stopping ∧ st ≠ .stopped := by
+  cases st <;> simp [killCond, Status.toNat] at h ⊢
+
+theorem exits_n (l : List Nat) : ∀ (s : State), (steps true s (l.map Op.exit)).n = s.n := by
+  induction l with
+  | nil => intro s; rfl
+  | cons y ys ih => intro s; simp only [List.map_cons, steps, List.foldl_cons]; exact (ih _).trans (exit_n true s y)
+
+/-- `exitM a` at a quiescent point (kill condition `< Stopping`): `a` and exactly the actors linked beneath
+it end up Stopped — except those that had already ended their message loop and sit in `post_stop`
+(`Stopping`): they are detached, not killed, and stay where they are; the result is again a quiescent state -/
 theorem exitM_spec {m : MState} (h : MI m) {a : Nat} (han : a < m.t.n) (hag : (m.act a).gone = false) :
     MI (exitM true m a) ∧
-    (∀ z, Desc m.t a z → (exitM true m a).t.status z = .stopped) ∧
+    (∀ z, Desc m.t a z → (exitM true m a).t.status z =
+        if z ≠ a ∧ m.t.status z = .stopping then .stopping else .stopped) ∧
     (∀ z, ¬ Desc m.t a z → (exitM true m a).t.status z = m.t.status z) ∧
     (exitM true m a).t.n = m.t.n ∧
     (∃ l : List Nat, (exitM true m a).t = steps true m.t ((a :: l).map Op.exit)) := by
   -- the state in which `settle` starts
   let m0 : MState := { t := exit true m.t a, act := upd m.act a { m.act a with gone := true, busy := false } }
   have hm0 : exitM true m a = settle true m.t.n m0 := rfl
-  have hast : m.t.status a ≠ .stopped := fun e => by
-    have := (h.gone_stopped a).mpr e; rw [hag] at this; cases this
   have hgone0 : ∀ z, (m0.act z).gone = if z = a then true else (m.act z).gone := by
     intro z; simp only [m0, upd_apply]; split <;> rfl
+  have hinps0 : ∀ z, (m0.act z).inPs = (m.act z).inPs := by
+    intro z; simp only [m0, upd_apply]; split
+    · next e => subst e; rfl
+    · rfl
   have hstatus0 : ∀ z, m0.t.status z = if z = a then .stopped else m.t.status z := fun z => exit_status true m.t a z
-  have hpend0 : ∀ z, Pending m0 z ↔ z ≠ a ∧ Desc m.t a z := by
+  have hpend0 : ∀ z, Pending m0 z ↔ z ≠ a ∧ Desc m.t a z ∧ m.t.status z ≠ .stopping := by
     intro z
     unfold Pending
     rw [hgone0 z]
@@ -371,11 +389,11 @@ theorem exitM_spec {m : MState} (h : MI m) {a : Nat} (han : a < m.t.n) (hag : (m
       · rintro ⟨h1, h2⟩
         rcases hk.mp h1 with h3 | h3
         · have := h.killed_gone z h3; rw [h2] at this; cases this
-        · exact h3.1
-      · intro hd
+        · rw [hst] at h3; exact ⟨h3.1, (killCond_true_ne h3.2).1⟩
+      · rintro ⟨hd, hns⟩
         obtain ⟨hlive, _⟩ := desc_proper_live h.inv hd e
         refine ⟨hk.mpr (.inr ⟨hd, ?_⟩), ?_⟩
-        · rw [hst]; exact killCond_true_of hlive (h.no_stopping z)
+        · rw [hst]; exact killCond_true_of hlive hns
         · cases hg : (m.act z).gone with
           | false => rfl
           | true => exact absurd ((h.gone_stopped z).mp hg) hlive
@@ -386,22 +404,22 @@ theorem exitM_spec {m : MState} (h : MI m) {a : Nat} (han : a < m.t.n) (hag : (m
         by_cases e : z = a
         · simp [e]
         · simp only [e, ↓reduceIte]; exact h.gone_stopped z
-      pend_closed := fun z hz => (exit_detaches true m.t a h.inv z ((hpend0 z).mp hz).2).1
+      pend_closed := fun z hz => (exit_detaches true m.t a h.inv z ((hpend0 z).mp hz).2.1).1
       pend_lt := by
         intro z hz
-        obtain ⟨e, hd⟩ := (hpend0 z).mp hz
+        obtain ⟨e, hd, _⟩ := (hpend0 z).mp hz
         show z < (exit true m.t a).n
         rw [exit_n]; exact (desc_proper_live h.inv hd e).2
-      no_stopping := by
-        intro z; rw [hstatus0 z]; split
-        · simp
-        · exact h.no_stopping z }
+      ps := by
+        intro z; rw [hstatus0 z, hinps0 z]; split
+        · intro e; cases e
+        · exact h.ps z }
   have hcount : pendCount m0 ≤ m.t.n := by
     unfold pendCount
     have : m0.t.n = m.t.n := exit_n true m.t a
     rw [this]
     exact Nat.le_trans (List.countP_le_length) (by simp)
-  obtain ⟨A, B, C, D, E, l, F⟩ := settle_spec true m.t.n m0 hs0 hcount
+  obtain ⟨A, B, C, D, E, ⟨l, F⟩, G⟩ := settle_spec true m.t.n m0 hs0 hcount
   rw [hm0]
   have hstatus : ∀ z, (settle true m.t.n m0).t.status z = if z = a then .stopped else
       if pendB m0 z then .stopped else m.t.status z := by
@@ -409,7 +427,9 @@ theorem exitM_spec {m : MState} (h : MI m) {a : Nat} (han : a < m.t.n) (hag : (m
     by_cases e : z = a
     · subst e; simp
     · simp [e]
-  refine ⟨?_, ?_, ?_, ?_, l, ?_⟩
+  have hn : (settle true m.t.n m0).t.n = m.t.n := by
+    rw [F]; exact (exits_n l _).trans (exit_n true m.t a)
+  refine ⟨?_, ?_, ?_, hn, l, ?_⟩
   · exact {
       inv := A.inv
       gone_stopped := A.gone_stopped
@@ -418,19 +438,9 @@ theorem exitM_spec {m : MState} (h : MI m) {a : Nat} (han : a < m.t.n) (hag : (m
         cases hg : ((settle true m.t.n m0).act z).gone with
         | true => rfl
         | false => exact absurd ⟨hz, hg⟩ (B z)
-      no_stopping := A.no_stopping
+      ps := A.ps
       fresh := by
         intro z hz
-        have hn : (settle true m.t.n m0).t.n = m.t.n := by
-          rw [F]
-          -- exits do not change `n`
-          clear F
-          have : ∀ (l : List Nat) (s : State), (steps true s (l.map Op.exit)).n = s.n := by
-            intro l
-            induction l with
-            | nil => intro s; rfl
-            | cons y ys ih => intro s; simp only [List.map_cons, steps, List.foldl_cons]; exact (ih _).trans (exit_n true s y)
-          exact (this l _).trans (exit_n true m.t a)
         rw [hn] at hz
         rw [hstatus z]
         have hza : z ≠ a := by omega
@@ -447,22 +457,21 @@ theorem exitM_spec {m : MState} (h : MI m) {a : Nat} (han : a < m.t.n) (hag : (m
     rw [hstatus z]
     by_cases e : z = a
     · simp [e]
-    · simp [e, pendB_iff.mpr ((hpend0 z).mpr ⟨e, hd⟩)]
+    · by_cases hs : m.t.status z = .stopping
+      · have hnp : pendB m0 z = false := by
+          cases hb : pendB m0 z with
+          | false => rfl
+          | true => exact absurd hs ((hpend0 z).mp (pendB_iff.mp hb)).2.2
+        simp [e, hs, hnp]
+      · simp [e, hs, pendB_iff.mpr ((hpend0 z).mpr ⟨e, hd, hs⟩)]
   · intro z hd
     rw [hstatus z]
     have e : z ≠ a := fun e => hd (e ▸ .refl)
     have hnp : pendB m0 z = false := by
       cases hb : pendB m0 z with
       | false => rfl
-      | true => exact absurd ((hpend0 z).mp (pendB_iff.mp hb)).2 hd
+      | true => exact absurd ((hpend0 z).mp (pendB_iff.mp hb)).2.1 hd
     simp [e, hnp]
-  · rw [F]
-    have : ∀ (l : List Nat) (s : State), (steps true s (l.map Op.exit)).n = s.n := by
-      intro l
-      induction l with
-      | nil => intro s; rfl
-      | cons y ys ih => intro s; simp only [List.map_cons, steps, List.foldl_cons]; exact (ih _).trans (exit_n true s y)
-    exact (this l _).trans (exit_n true m.t a)
   · rw [F]; rfl
 
 end Tree
@@ -474,7 +483,8 @@ namespace Tree
 /-- relation between two consecutive quiescent snapshots of a macro run -/
 structure StepRel (prev cur : State) : Prop where
   steps : ∃ ops, cur = steps true prev ops
-  sub : ∀ a, cur.status a = .stopped → prev.status a ≠ .stopped → ∀ x, child prev a x → cur.status x = .stopped
+  sub : ∀ a, cur.status a = .stopped → prev.status a ≠ .stopped → ∀ x, child prev a x →
+    Status.stopping.toNat ≤ (cur.status x).toNat
 
 theorem StepRel.refl (s : State) : StepRel s s := ⟨⟨[], rfl⟩, fun _ h1 h2 => absurd h1 h2⟩
 
@@ -490,16 +500,7 @@ theorem steps_append (fixed : Bool) (s : State) (l1 l2 : List Op) :
 theorem child_congr {s s' : State} (h : s'.kids = s.kids) {p c : Nat} : child s' p c ↔ child s p c := by
   unfold child; rw [h]
 
-theorem desc_congr {s s' : State} (h : s'.kids = s.kids) {a z : Nat} : Desc s' a z ↔ Desc s a z := by
-  constructor <;> intro hd
-  · induction hd with
-    | refl => exact .refl
-    | tail _ hc ih => exact .tail ih ((child_congr h).mp hc)
-  · induction hd with
-    | refl => exact .refl
-    | tail _ hc ih => exact .tail ih ((child_congr h).mpr hc)
-
-/-- an `exitM` after some preparatory tree ops that neither change the child sets nor stop anybody -/
+/-- an `exitM` after some preparatory tree ops that erase no edge and stop nobody -/
 theorem StepRel.of_exitM {prev : State} {m' : MState} (h : MI m') {a : Nat} (han : a < m'.t.n)
     (hag : (m'.act a).gone = false) (ops0 : List Op) (he : m'.t = Tree.steps true prev ops0)
     (hk : ∀ z x, child prev z x → child m'.t z x) (hst : ∀ z, m'.t.status z = .stopped → prev.status z = .stopped) :
@@ -511,7 +512,8 @@ theorem StepRel.of_exitM {prev : State} {m' : MState} (h : MI m') {a : Nat} (han
     apply Classical.byContradiction; intro hnd
     rw [hN z hnd] at h1
     exact h2 (hst z h1)
-  exact hD x (.tail hdz (hk z x hx))
+  rw [hD x (.tail hdz (hk z x hx))]
+  split <;> simp [Status.toNat]
 
 /-- what the three Bool predicates of the driver need -/
 theorem StepRel.checks {prev cur : State} (hp : Inv prev) (h : StepRel prev cur) :
@@ -522,7 +524,8 @@ theorem StepRel.checks {prev cur : State} (hp : Inv prev) (h : StepRel prev cur)
     rw [List.all_eq_true]
     intro a _
     by_cases hn : (Tree.steps true prev ops).status a = .stopped ∧ prev.status a ≠ .stopped
-    · have : ((prev.kids a).getD []).all (fun x => (Tree.steps true prev ops).status x == .stopped) = true := by
+    · have : ((prev.kids a).getD []).all
+          (fun x => decide (Status.stopping.toNat ≤ ((Tree.steps true prev ops).status x).toNat)) = true := by
         rw [List.all_eq_true]
         intro x hx
         have hc : child prev a x := by
@@ -530,13 +533,13 @@ theorem StepRel.checks {prev cur : State} (hp : Inv prev) (h : StepRel prev cur)
           | none => rw [hk] at hx; cases hx
           | some ks => rw [hk] at hx; exact ⟨ks, hk, hx⟩
         simpa using h.sub a hn.1 hn.2 x hc
-      simp [this]
+      rw [this]; simp
     · have : ((Tree.steps true prev ops).status a == .stopped && prev.status a != .stopped) = false := by
         simp only [Bool.and_eq_false_iff, beq_eq_false_iff_ne, ne_eq, bne_eq_false_iff_eq]
         by_cases h1 : (Tree.steps true prev ops).status a = .stopped
         · exact .inr (Classical.byContradiction fun h2 => hn ⟨h1, h2⟩)
         · exact .inl h1
-      simp [this]
+      rw [this]; simp
   · unfold gainOk
     rw [List.all_eq_true]
     intro a ha
@@ -559,23 +562,25 @@ theorem StepRel.checks {prev cur : State} (hp : Inv prev) (h : StepRel prev cur)
         | some q => simp [g2 q hsa]
       rw [hk, hs]; simp
 
-end Tree
-
-namespace Tree
-
-theorem MI.act_congr {m : MState} (h : MI m) (act' : Nat → Act) (hg : ∀ x, (act' x).gone = (m.act x).gone) :
+theorem MI.act_congr {m : MState} (h : MI m) (act' : Nat → Act)
+    (hg : ∀ x, (act' x).gone = (m.act x).gone) (hp : ∀ x, (m.act x).inPs = true → (act' x).inPs = true) :
     MI { m with act := act' } :=
   { inv := h.inv
     gone_stopped := fun x => by rw [hg x]; exact h.gone_stopped x
     killed_gone := fun x hx => by rw [hg x]; exact h.killed_gone x hx
-    no_stopping := h.no_stopping
+    ps := fun x hx => hp x (h.ps x hx)
     fresh := h.fresh }
 
-theorem upd_gone_same (act : Nat → Act) (a : Nat) (A : Act) (hA : A.gone = (act a).gone) (x : Nat) :
-    (upd act a A x).gone = (act x).gone := by
-  simp only [upd_apply]; split
-  · next e => subst e; exact hA
-  · rfl
+/-- an update of one actor's bookkeeping that touches neither `gone` nor `inPs` -/
+theorem MI.upd_act {m : MState} (h : MI m) (a : Nat) (A : Act) (hg : A.gone = (m.act a).gone)
+    (hp : A.inPs = (m.act a).inPs) : MI { m with act := upd m.act a A } := by
+  apply h.act_congr
+  · intro x; simp only [upd_apply]; split
+    · next e => subst e; exact hg
+    · rfl
+  · intro x hx; simp only [upd_apply]; split
+    · next e => subst e; rw [hp]; exact hx
+    · exact hx
 
 theorem MI.not_gone_fresh {m : MState} (h : MI m) {x : Nat} (hx : m.t.n ≤ x) : (m.act x).gone = false := by
   cases hg : (m.act x).gone with
@@ -594,25 +599,24 @@ theorem MI.spawn {m : MState} (h : MI m) : MI { m with t := spawn m.t } :=
       · next e => subst e; simp [h.not_gone_fresh (Nat.le_refl _)]
       · exact h.gone_stopped x
     killed_gone := h.killed_gone
-    no_stopping := by
+    ps := by
       intro x; simp only [Tree.spawn, upd_apply]; split
-      · simp
-      · exact h.no_stopping x
+      · intro e; cases e
+      · exact h.ps x
     fresh := by
       intro x hx
       simp only [Tree.spawn] at hx ⊢
       rw [upd_ne _ _ (by omega)]
       exact h.fresh x (by omega) }
 
-/-- a status publication below `Stopping` on an actor that is not stopped -/
+/-- a status publication below `Stopping` on an actor that is still in its message loop -/
 theorem MI.setStatus {m : MState} (h : MI m) {a : Nat} (st : Status) (han : a < m.t.n)
-    (hlive : m.t.status a ≠ .stopped) (hst : st ≠ .stopped ∧ st ≠ .stopping) :
+    (hlive : m.t.status a ≠ .stopped) (hns : m.t.status a ≠ .stopping) (hst : st ≠ .stopped ∧ st ≠ .stopping) :
     MI { m with t := setStatus m.t a st } := by
   have hne : (m.t.status a).max st ≠ .stopped ∧ (m.t.status a).max st ≠ .stopping := by
-    have := h.no_stopping a
     unfold Status.max; split
     · exact hst
-    · exact ⟨hlive, this⟩
+    · exact ⟨hlive, hns⟩
   exact {
     inv := h.inv.setStatus a st hst.1
     gone_stopped := by
@@ -624,10 +628,10 @@ theorem MI.setStatus {m : MState} (h : MI m) {a : Nat} (st : Status) (han : a < 
         · intro e; exact absurd e hne.1
       · exact h.gone_stopped x
     killed_gone := h.killed_gone
-    no_stopping := by
+    ps := by
       intro x; rw [setStatus_status]; split
-      · exact hne.2
-      · exact h.no_stopping x
+      · intro e; exact absurd e hne.2
+      · exact h.ps x
     fresh := by
       intro x hx
       rw [setStatus_status]
@@ -641,7 +645,7 @@ theorem MI.link {m : MState} (h : MI m) (c p : Nat) : MI { m with t := (link m.t
     inv := h.inv.link c p
     gone_stopped := by intro x; simp only [hst]; exact h.gone_stopped x
     killed_gone := by intro x; simp only [hkl]; exact h.killed_gone x
-    no_stopping := by intro x; simp only [hst]; exact h.no_stopping x
+    ps := by intro x; simp only [hst]; exact h.ps x
     fresh := by intro x hx; simp only [hst, hn] at hx ⊢; exact h.fresh x hx }
 
 theorem MI.unlink {m : MState} (h : MI m) (c p : Nat) : MI { m with t := unlink m.t c p } := by
@@ -650,20 +654,83 @@ theorem MI.unlink {m : MState} (h : MI m) (c p : Nat) : MI { m with t := unlink 
     inv := h.inv.unlink c p
     gone_stopped := by intro x; simp only [hst]; exact h.gone_stopped x
     killed_gone := by intro x; simp only [hkl]; exact h.killed_gone x
-    no_stopping := by intro x; simp only [hst]; exact h.no_stopping x
+    ps := by intro x; simp only [hst]; exact h.ps x
     fresh := by intro x hx; simp only [hst, hn] at hx ⊢; exact h.fresh x hx }
 
 theorem alive_iff {m : MState} {a : Nat} : m.alive a = true ↔ a < m.t.n ∧ (m.act a).gone = false := by
   simp [MState.alive]
 
+theorem looping_iff {m : MState} {a : Nat} :
+    m.looping a = true ↔ a < m.t.n ∧ (m.act a).gone = false ∧ (m.act a).inPs = false := by
+  simp [MState.looping, MState.alive, and_assoc]
+
 theorem MI.live_status {m : MState} (h : MI m) {a : Nat} (hg : (m.act a).gone = false) : m.t.status a ≠ .stopped :=
   fun e => by have := (h.gone_stopped a).mpr e; rw [hg] at this; cases this
 
+theorem MI.loop_status {m : MState} (h : MI m) {a : Nat} (hp : (m.act a).inPs = false) : m.t.status a ≠ .stopping :=
+  fun e => by have := h.ps a e; rw [hp] at this; cases this
+
+/-- `exitM` after preparatory ops -/
+theorem exitM_rel' {prev : State} {m' : MState} (h : MI m') {a : Nat} (hal : m'.alive a = true)
+    (ops0 : List Op) (he : m'.t = Tree.steps true prev ops0)
+    (hk : ∀ z x, child prev z x → child m'.t z x) (hst : ∀ z, m'.t.status z = .stopped → prev.status z = .stopped) :
+    MI (exitM true m' a) ∧ StepRel prev (exitM true m' a).t := by
+  obtain ⟨han, hag⟩ := alive_iff.mp hal
+  exact ⟨(exitM_spec h han hag).1, StepRel.of_exitM h han hag ops0 he hk hst⟩
+
 /-- `exitM` with nothing before it -/
 theorem exitM_rel {m : MState} (h : MI m) {a : Nat} (hal : m.alive a = true) :
-    MI (exitM true m a) ∧ StepRel m.t (exitM true m a).t := by
-  obtain ⟨han, hag⟩ := alive_iff.mp hal
-  exact ⟨(exitM_spec h han hag).1, StepRel.of_exitM h han hag [] rfl (fun _ _ hx => hx) (fun _ hz => hz)⟩
+    MI (exitM true m a) ∧ StepRel m.t (exitM true m a).t :=
+  exitM_rel' h hal [] rfl (fun _ _ hx => hx) (fun _ hz => hz)
+
+/-- a graceful exit after preparatory ops: either the whole exit, or (gate armed) the actor parks in
+`post_stop`: `Stopping` is published, nothing else happens yet -/
+theorem gexit_rel' {prev : State} {m' : MState} (h : MI m') {a : Nat} (hal : m'.alive a = true)
+    (ops0 : List Op) (he : m'.t = Tree.steps true prev ops0)
+    (hk : ∀ z x, child prev z x → child m'.t z x) (hst : ∀ z, m'.t.status z = .stopped → prev.status z = .stopped) :
+    MI (gexit true m' a) ∧ StepRel prev (gexit true m' a).t := by
+  unfold gexit
+  split
+  · obtain ⟨han, hag⟩ := alive_iff.mp hal
+    have hlive := h.live_status hag
+    have hmax : (m'.t.status a).max .stopping = .stopping := max_stopping_of hlive
+    have hstat : ∀ z, (setStatus m'.t a .stopping).status z = if z = a then .stopping else m'.t.status z := by
+      intro z; rw [setStatus_status, hmax]
+    have hgone : ∀ z, (upd m'.act a { m'.act a with inPs := true, busy := false } z).gone = (m'.act z).gone := by
+      intro z; simp only [upd_apply]; split
+      · next e => subst e; rfl
+      · rfl
+    refine ⟨?_, ?_⟩
+    · exact {
+        inv := h.inv.setStatus a _ (by decide)
+        gone_stopped := by
+          intro z; rw [hgone z, hstat z]; split
+          · next e => subst e; simp [hag]
+          · exact h.gone_stopped z
+        killed_gone := by intro z hz; rw [hgone z]; exact h.killed_gone z hz
+        ps := by
+          intro z; rw [hstat z]; simp only [upd_apply]; split
+          · intro _; rfl
+          · exact h.ps z
+        fresh := by
+          intro z hz
+          rw [hstat z]
+          have : z ≠ a := by simp only [Tree.setStatus] at hz; omega
+          simp only [this, ↓reduceIte]
+          exact h.fresh z hz }
+    · refine ⟨⟨ops0 ++ [.setStatus a .stopping], by rw [steps_append, ← he]; rfl⟩, ?_⟩
+      intro z h1 h2
+      exfalso
+      simp only at h1
+      rw [hstat z] at h1
+      split at h1
+      · cases h1
+      · exact h2 (hst z h1)
+  · exact exitM_rel' h hal ops0 he hk hst
+
+theorem gexit_rel {m : MState} (h : MI m) {a : Nat} (hal : m.alive a = true) :
+    MI (gexit true m a) ∧ StepRel m.t (gexit true m a).t :=
+  gexit_rel' h hal [] rfl (fun _ _ hx => hx) (fun _ hz => hz)
 
 /-- every macro op leads from a quiescent state to a quiescent state, and the two snapshots are related -/
 theorem mstep_rel {m : MState} (h : MI m) (op : MOp) :
@@ -673,7 +740,8 @@ theorem mstep_rel {m : MState} (h : MI m) (op : MOp) :
     have h1 := h.spawn
     have hn : m.t.n < (Tree.spawn m.t).n := Nat.lt_succ_self _
     have hlive : (Tree.spawn m.t).status m.t.n ≠ .stopped := by simp [Tree.spawn]
-    refine ⟨MI.setStatus h1 .running hn hlive (by decide), ?_⟩
+    have hns : (Tree.spawn m.t).status m.t.n ≠ .stopping := by simp [Tree.spawn]
+    refine ⟨MI.setStatus h1 .running hn hlive hns (by decide), ?_⟩
     show StepRel m.t (Tree.steps true m.t [.spawn, .setStatus m.t.n .running])
     apply StepRel.of_steps
     intro a ha
@@ -693,7 +761,9 @@ theorem mstep_rel {m : MState} (h : MI m) (op : MOp) :
       obtain ⟨_, _, _, hst, _, hnn⟩ := link_other h1.inv (c := m.t.n) (p := p) (z := 0)
       have hlive : (link (Tree.spawn m.t) m.t.n p).1.status m.t.n ≠ .stopped := by
         rw [hst]; simp [Tree.spawn]
-      refine ⟨MI.setStatus h2 .running (by simp only [hnn]; exact hn) hlive (by decide), ?_⟩
+      have hns : (link (Tree.spawn m.t) m.t.n p).1.status m.t.n ≠ .stopping := by
+        rw [hst]; simp [Tree.spawn]
+      refine ⟨MI.setStatus h2 .running (by simp only [hnn]; exact hn) hlive hns (by decide), ?_⟩
       show StepRel m.t (Tree.steps true m.t [.spawn, .link m.t.n p, .setStatus m.t.n .running])
       apply StepRel.of_steps
       intro a ha
@@ -712,9 +782,8 @@ theorem mstep_rel {m : MState} (h : MI m) (op : MOp) :
         · rcases hcase with ⟨_, e⟩ | ⟨_, e⟩ | ⟨q, _, _, e⟩ <;> rw [e] at hr <;> cases hr
       rw [hsame]
       have hag : (m.act m.t.n).gone = false := h.not_gone_fresh (Nat.le_refl _)
-      obtain ⟨hmi, _⟩ := exitM_spec h1 (a := m.t.n) hn hag
-      refine ⟨hmi, ?_⟩
-      apply StepRel.of_exitM h1 hn hag [.spawn] rfl (fun _ _ hx => hx)
+      have hal : ({ m with t := Tree.spawn m.t } : MState).alive m.t.n = true := alive_iff.mpr ⟨hn, hag⟩
+      apply exitM_rel' h1 hal [.spawn] rfl (fun _ _ hx => hx)
       intro z hz
       simp only [Tree.spawn, upd_apply] at hz
       split at hz
@@ -735,7 +804,9 @@ theorem mstep_rel {m : MState} (h : MI m) (op : MOp) :
     · simp only [hc, ↓reduceIte]
       have hlive : (link (Tree.spawn m.t) m.t.n p).1.status m.t.n ≠ .stopped := by
         rw [hst']; simp [Tree.spawn]
-      refine ⟨MI.setStatus h2 .running (by simp only [hnn]; exact hn) hlive (by decide), ?_⟩
+      have hns : (link (Tree.spawn m.t) m.t.n p).1.status m.t.n ≠ .stopping := by
+        rw [hst']; simp [Tree.spawn]
+      refine ⟨MI.setStatus h2 .running (by simp only [hnn]; exact hn) hlive hns (by decide), ?_⟩
       show StepRel m.t (Tree.steps true m.t [.spawn, .link m.t.n p, .setStatus m.t.n .running])
       apply StepRel.of_steps
       intro a ha
@@ -748,9 +819,9 @@ theorem mstep_rel {m : MState} (h : MI m) (op : MOp) :
     · simp only [hc, Bool.false_eq_true, ↓reduceIte]
       have hag : (m.act m.t.n).gone = false := h.not_gone_fresh (Nat.le_refl _)
       have han' : m.t.n < (link (Tree.spawn m.t) m.t.n p).1.n := by rw [hnn]; exact hn
-      obtain ⟨hmi, _⟩ := exitM_spec h2 (a := m.t.n) han' hag
-      refine ⟨hmi, ?_⟩
-      apply StepRel.of_exitM h2 han' hag [.spawn, .link m.t.n p] rfl
+      have hal : ({ m with t := (link (Tree.spawn m.t) m.t.n p).1 } : MState).alive m.t.n = true :=
+        alive_iff.mpr ⟨han', hag⟩
+      apply exitM_rel' h2 hal [.spawn, .link m.t.n p] rfl
       · -- the link only adds an edge: the new cell had no supervisor, so nothing is erased
         intro z x hx
         have hsup : (Tree.spawn m.t).sup m.t.n = none := by
@@ -784,8 +855,7 @@ theorem mstep_rel {m : MState} (h : MI m) (op : MOp) :
   | block a =>
     simp only [mstep]
     split
-    · refine ⟨h.act_congr _ (fun x => ?_), StepRel.refl _⟩
-      apply upd_gone_same; split <;> rfl
+    · refine ⟨h.upd_act a _ ?_ ?_, StepRel.refl _⟩ <;> split <;> rfl
     · exact ⟨h, StepRel.refl _⟩
   | release a =>
     simp only [mstep]
@@ -793,60 +863,31 @@ theorem mstep_rel {m : MState} (h : MI m) (op : MOp) :
     · simp only [hc, ↓reduceIte]
       have hal : m.alive a = true := by simp only [Bool.and_eq_true] at hc; exact hc.1
       obtain ⟨han, hag⟩ := alive_iff.mp hal
-      -- the handler completes: `handled + 1`
-      have hbase : ∀ A' : Act, A'.gone = (m.act a).gone → MI { m with act := upd m.act a A' } :=
-        fun A' hA => h.act_congr _ (fun x => upd_gone_same _ _ _ hA x)
       split
-      · have hm' := hbase { m.act a with handled := (m.act a).handled + 1 } rfl
+      · have hm' := h.upd_act a { m.act a with handled := (m.act a).handled + 1 } rfl rfl
         have hal' : ({ m with act := upd m.act a { m.act a with handled := (m.act a).handled + 1 } } : MState).alive a = true := by
           simp [MState.alive, han, hag]
-        exact exitM_rel hm' hal'
+        exact gexit_rel hm' hal'
       · split
-        · exact ⟨hbase _ rfl, StepRel.refl _⟩
+        · exact ⟨h.upd_act a _ rfl rfl, StepRel.refl _⟩
         · split
-          · have hm' := hbase { m.act a with handled := (m.act a).handled + 1, busy := false } rfl
+          · have hm' := h.upd_act a { m.act a with handled := (m.act a).handled + 1, busy := false } rfl rfl
             have hal' : ({ m with act := upd m.act a { m.act a with handled := (m.act a).handled + 1, busy := false } } : MState).alive a = true := by
               simp [MState.alive, han, hag]
-            exact exitM_rel hm' hal'
-          · exact ⟨hbase _ rfl, StepRel.refl _⟩
+            exact gexit_rel hm' hal'
+          · exact ⟨h.upd_act a _ rfl rfl, StepRel.refl _⟩
     · simp only [hc, Bool.false_eq_true, ↓reduceIte]
       exact ⟨h, StepRel.refl _⟩
   | drain a =>
     simp only [mstep]
-    by_cases hal : m.alive a = true
-    · simp only [hal, ↓reduceIte]
-      obtain ⟨han, hag⟩ := alive_iff.mp hal
+    by_cases hlo : m.looping a = true
+    · simp only [hlo, ↓reduceIte]
+      obtain ⟨han, hag, hps⟩ := looping_iff.mp hlo
       have hlive := h.live_status hag
-      -- the status is below `Stopping` at a quiescent point, so `Draining` is published
-      have hlt : (m.t.status a).toNat < Status.stopping.toNat := by
-        have := h.no_stopping a
-        cases hs : m.t.status a <;> simp_all [Status.toNat]
-      simp only [hlt, ↓reduceIte]
-      have hm' : MI { m with t := setStatus m.t a .draining } := MI.setStatus h .draining han hlive (by decide)
-      have hrel : StepRel m.t (setStatus m.t a .draining) := by
-        show StepRel m.t (Tree.steps true m.t [.setStatus a .draining])
-        apply StepRel.of_steps
+      have hns := h.loop_status hps
+      have hm' : MI { m with t := setStatus m.t a .draining } := MI.setStatus h .draining han hlive hns (by decide)
+      have hstop : ∀ z, (setStatus m.t a .draining).status z = .stopped → m.t.status z = .stopped := by
         intro z hz
-        have : Tree.steps true m.t [.setStatus a .draining] = setStatus m.t a .draining := rfl
-        rw [this, setStatus_status] at hz
-        split at hz
-        · next e =>
-          subst e
-          exfalso
-          unfold Status.max at hz
-          split at hz
-          · cases hz
-          · exact hlive hz
-        · exact hz
-      split
-      · exact ⟨hm', hrel⟩
-      · have hal' : ({ m with t := setStatus m.t a .draining } : MState).alive a = true := by
-          simp [MState.alive, han, hag, Tree.setStatus]
-        obtain ⟨han', hag'⟩ := alive_iff.mp hal'
-        refine ⟨(exitM_spec hm' han' hag').1, ?_⟩
-        apply StepRel.of_exitM hm' han' hag' [.setStatus a .draining] rfl (fun _ _ hx => hx)
-        intro z hz
-        simp only at hz
         rw [setStatus_status] at hz
         split at hz
         · next e =>
@@ -857,16 +898,24 @@ theorem mstep_rel {m : MState} (h : MI m) (op : MOp) :
           · cases hz
           · exact hlive hz
         · exact hz
-    · simp only [hal, Bool.false_eq_true, ↓reduceIte]
+      split
+      · refine ⟨hm', ?_⟩
+        show StepRel m.t (Tree.steps true m.t [.setStatus a .draining])
+        exact StepRel.of_steps _ hstop
+      · have hal' : ({ m with t := setStatus m.t a .draining } : MState).alive a = true := by
+          simp [MState.alive, han, hag, Tree.setStatus]
+        exact gexit_rel' hm' hal' [.setStatus a .draining] rfl (fun _ _ hx => hx) hstop
+    · simp only [hlo, Bool.false_eq_true, ↓reduceIte]
       exact ⟨h, StepRel.refl _⟩
   | stop a =>
     simp only [mstep]
-    by_cases hal : m.alive a = true
-    · simp only [hal, ↓reduceIte]
+    by_cases hlo : m.looping a = true
+    · simp only [hlo, ↓reduceIte]
+      obtain ⟨han, hag, _⟩ := looping_iff.mp hlo
       split
-      · exact ⟨h.act_congr _ (fun x => upd_gone_same m.act a _ (by rfl) x), StepRel.refl _⟩
-      · exact exitM_rel h hal
-    · simp only [hal, Bool.false_eq_true, ↓reduceIte]
+      · exact ⟨h.upd_act a _ rfl rfl, StepRel.refl _⟩
+      · exact gexit_rel h (alive_iff.mpr ⟨han, hag⟩)
+    · simp only [hlo, Bool.false_eq_true, ↓reduceIte]
       exact ⟨h, StepRel.refl _⟩
   | kill a =>
     simp only [mstep]
@@ -875,16 +924,29 @@ theorem mstep_rel {m : MState} (h : MI m) (op : MOp) :
     · simp only [hal, Bool.false_eq_true, ↓reduceIte]; exact ⟨h, StepRel.refl _⟩
   | fail a =>
     simp only [mstep]
-    by_cases hc : (m.alive a && !(m.act a).busy) = true
+    by_cases hc : (m.looping a && !(m.act a).busy) = true
     · simp only [hc, ↓reduceIte]
-      have hal : m.alive a = true := by simp only [Bool.and_eq_true] at hc; exact hc.1
-      exact exitM_rel h hal
+      have hlo : m.looping a = true := by simp only [Bool.and_eq_true] at hc; exact hc.1
+      obtain ⟨han, hag, _⟩ := looping_iff.mp hlo
+      exact exitM_rel h (alive_iff.mpr ⟨han, hag⟩)
     · simp only [hc, Bool.false_eq_true, ↓reduceIte]; exact ⟨h, StepRel.refl _⟩
   | abort a =>
     simp only [mstep]
     by_cases hal : m.alive a = true
     · simp only [hal, ↓reduceIte]; exact exitM_rel h hal
     · simp only [hal, Bool.false_eq_true, ↓reduceIte]; exact ⟨h, StepRel.refl _⟩
+  | hold a =>
+    simp only [mstep]
+    split
+    · exact ⟨h.upd_act a _ rfl rfl, StepRel.refl _⟩
+    · exact ⟨h, StepRel.refl _⟩
+  | psrelease a =>
+    simp only [mstep]
+    by_cases hc : (m.alive a && (m.act a).inPs) = true
+    · simp only [hc, ↓reduceIte]
+      have hal : m.alive a = true := by simp only [Bool.and_eq_true] at hc; exact hc.1
+      exact exitM_rel h hal
+    · simp only [hc, Bool.false_eq_true, ↓reduceIte]; exact ⟨h, StepRel.refl _⟩
 
 theorem mrun_MI (ops : List MOp) : MI (mrun true {} ops) := by
   have : ∀ (ops : List MOp) (m : MState), MI m → MI (mrun true m ops) := by
